@@ -361,7 +361,7 @@ def run_labels(ck):
                     c["id"] = 2000000 + i
                     c["coq"] = re.sub(r"^LCase \d+ ", "LCase %d " % c["id"], c["coq"])
                 cases += cs
-    n = ck.n(3000, 40000)
+    n = ck.n(2400, 40000)
     outp = os.path.join(ck.work, "labels.jsonl")
     rc, out = ck.go_run("decode", ["--seed", ck.seed, "--n", n, "--out", outp], timeout=600, env_extra=env)
     if rc != 0:
@@ -370,8 +370,11 @@ def run_labels(ck):
     cases += [json.loads(l) for l in open(outp) if l.strip()]
     byid = {c["id"]: c for c in cases}
     mism, viol = [], []
-    for k in range(0, len(cases), 1500):
-        m, v, out = eval_two(ck, "C03_labels_%d" % (k // 1500), LHEADER, "lcase", cases[k:k + 1500], "lc_check_all")
+    from concurrent.futures import ThreadPoolExecutor
+    with ThreadPoolExecutor(max_workers=4) as ex:
+        results = list(ex.map(lambda k: eval_two(ck, "C03_labels_%d" % (k // 800), LHEADER, "lcase", cases[k:k + 800], "lc_check_all"),
+                              range(0, len(cases), 800)))
+    for m, v, out in results:
         if m is None:
             ck.obligation("label-string cases evaluated inside Coq", False, out[-2500:])
             return
@@ -425,8 +428,5 @@ def run(ck):
         return
     if not ck.quick():
         ck.coqchk(["Qryn.props.C03"])
-    ok, out = ck.coq_make(["model/LokiLabels.vo"])
-    ck.obligation("model/LokiLabels.v builds", ok, out[-1500:])
     run_correspondence(ck, consts)
-    if ok:
-        run_labels(ck)
+    run_labels(ck)
